@@ -535,7 +535,7 @@ def b_note_int(tier, rnd):
 @battery("note_setnote")
 def b_note_setnote(tier, rnd):
     from mingus.containers.note import Note
-    names = all_names(2) + ["H", "c", "Cx", "C#x", "x", "1"]
+    names = all_names(2) + ["H", "c", "Cx", "C#x", "x", "1", "C%", "100%", "C%s", "%d", "C{}", "C\n", "C#\n", ""]
     return {"rule": "set_note on a fresh Note x (names with <= 2 accidentals + malformed) x octaves {0,4,9} x "
                     "dynamics {} / None", "cases": [(Note(), n, o, d) for n in names for o in (0, 4, 9) for d in ({}, None)]}
 
@@ -543,7 +543,7 @@ def b_note_setnote(tier, rnd):
 @battery("note_init")
 def b_note_init(tier, rnd):
     from mingus.containers.note import Note
-    names = all_names(2) + ["H", "c", "Cx", "C#x", "x", "1"]
+    names = all_names(2) + ["H", "c", "Cx", "C#x", "x", "1", "C%", "100%", "C%s", "%d", "C{}", "C\n", "C#\n", ""]
     return {"rule": "Note.__init__ on a blank instance x names x octaves {0,4,9}",
             "cases": [(Note.__new__(Note), n, o) for n in names for o in (0, 4, 9)]}
 
